@@ -318,7 +318,9 @@ func c20Body(c *ev.Ctx) {
 		scrapes int
 		bound   int
 	}
-	jobs := []job{{"deletion", []string{"valid1", "notjson"}, 1, 1}, {"deletion", []string{"GET", "unsat"}, 2, 1}}
+	// cheap requests with no scraper: deep preemption bound (a lost update between two
+	// wrapper steps of overlapping requests needs both in flight: >= 3 preemptions)
+	jobs := []job{{"deletion", []string{"GET", "notjson"}, 0, 3}, {"deletion", []string{"valid1", "notjson"}, 1, 1}, {"deletion", []string{"GET", "unsat"}, 2, 1}}
 	if !quick {
 		jobs = append(jobs, job{"insertion", []string{"unsat", "valid2"}, 1, 1}, job{"insertion", []string{"GET", "notjson", "unsat"}, 1, 1}, job{"deletion", []string{"unsat", "notjson"}, 1, 2})
 	}
@@ -339,7 +341,7 @@ func c20Body(c *ev.Ctx) {
 		}
 		var mu sync.Mutex
 		nfail := 0
-		e := &vsched.Explorer{Bound: jb.bound, Fine: true, UseKeys: true, MaxSteps: 2000000, Workers: workers(), Deadline: c.Deadline, NewRun: c20Run(c, &sc, nil), AfterRun: vhttp.Uninstall,
+		e := &vsched.Explorer{Bound: jb.bound, Fine: true, UseKeys: false, MaxSteps: 2000000, Workers: workers(), Deadline: c.Deadline, NewRun: c20Run(c, &sc, nil), AfterRun: vhttp.Uninstall,
 			Filter: func(p *vsched.Point, alt int) bool {
 				return strings.HasPrefix(p.Running, "conn-") && strings.HasPrefix(p.Enabled[alt], "conn-")
 			}}
@@ -379,7 +381,12 @@ func c20Body(c *ev.Ctx) {
 	}
 	c.Set("states", states)
 	c.Set("transitions", trans)
-	c.Set("traces_validated_against_impl", execs)
+	e2e := int64(0)
+	if c.NViolations() == 0 {
+		e2e = c20E2E(c)
+	}
+	c.Set("e2e_label_pairs_validated_on_real_binary", e2e)
+	c.Set("traces_validated_against_impl", execs+e2e)
 	c.Set("sequential_histories", nSeq)
 	c.Set("scrapes_that_observed_a_request_in_flight", atomic.LoadInt64(&c20InFlightSeen))
 	c.Set("concurrent_scenarios", per)
